@@ -45,8 +45,10 @@ BOUNDS = {
                      ClipNiter=NITER, TabX=set(range(0, 7)), TabV=set(range(0, 6)), TabMax=4,
                      CovMaxN=3, CovDiag={1, 2, 4, 9}, CovOffN=6, CovShift=3, DefMaxW=12),
 }
-INVARIANTS = ["DefsAgree", "MomentsSane", "MedSafe", "MedRefines", "ClipRefines", "ClipNonEmpty", "ClipStopsOK", "ClipPredsAgree",
-              "ClipStatsDefined", "InterpRefines", "CovSane"]
+INVARIANTS = ["DefsAgree", "MomentsSane", "MedSafe", "MedRefines", "ClipRefines", "ClipNonEmpty", "ClipStopsOK",
+              "ClipStatsDefined", "InterpRefines", "CovSane", "DesignCovers", "RepAdmissible"]
+# quantify over SUBSET x SUBSET of the positions in every clipping state: checked in a run of their own on the quick bounds
+CLIP_THEOREMS = ["ClipPredsAgree", "ClipTolSound"]
 ACTIONS = ["ChooseX1", "ChooseW1", "ChooseMu", "MedStart", "MedStep", "MedDone", "ChooseX2", "ChooseW2",
            "ChooseClipX", "ChooseClipW", "ClipStep", "ClipFinish", "ChooseNodes", "ChooseTabV", "ChooseCovDiag", "ChooseCovOff"]
 
